@@ -219,7 +219,15 @@ pub fn trace(
                 let instrumented_block =
                     gen_block(&func_name, &async_expr.block, true, false, &args);
                 let async_attrs = &async_expr.attrs;
+                // statements in front of the pinned future (none in what async-trait
+                // generates) are kept as they are
+                let leading_stmts = input
+                    .block
+                    .stmts
+                    .iter()
+                    .take_while(|stmt| !std::ptr::eq(*stmt, internal_fun.source_stmt));
                 quote::quote! {
+                    #(#leading_stmts)*
                     Box::pin(#(#async_attrs) * #instrumented_block)
                 }
             }
@@ -397,7 +405,7 @@ enum AsyncTraitKind<'a> {
 
 struct AsyncTraitInfo<'a> {
     // statement that must be patched
-    _source_stmt: &'a Stmt,
+    source_stmt: &'a Stmt,
     kind: AsyncTraitKind<'a>,
 }
 
@@ -475,7 +483,7 @@ fn get_async_trait_info(block: &Block, block_is_async: bool) -> Option<AsyncTrai
         async_expr.capture?;
 
         return Some(AsyncTraitInfo {
-            _source_stmt: last_expr_stmt,
+            source_stmt: last_expr_stmt,
             kind: AsyncTraitKind::Async(async_expr),
         });
     }
@@ -499,7 +507,7 @@ fn get_async_trait_info(block: &Block, block_is_async: bool) -> Option<AsyncTrai
         .find(|(_, fun)| fun.sig.ident == func_name)?;
 
     Some(AsyncTraitInfo {
-        _source_stmt: stmt_func_declaration,
+        source_stmt: stmt_func_declaration,
         kind: AsyncTraitKind::Function,
     })
 }
